@@ -6,6 +6,7 @@ import (
 	"hash/fnv"
 	"os"
 	"path/filepath"
+	"regexp"
 	"sort"
 	"strings"
 
@@ -299,8 +300,12 @@ func clip(s string, n int) string {
 	return s
 }
 
-// normDigits replaces every run of digits by '#', for panic signatures.
+var reQuotedIdent = regexp.MustCompile(`\\?"[@%][^"]*\\?"+`)
+
+// normDigits replaces every run of digits by '#' and every quoted identifier by
+// "ID", for panic signatures.
 func normDigits(s string) string {
+	s = reQuotedIdent.ReplaceAllString(s, `"ID"`)
 	var b strings.Builder
 	in := false
 	for _, c := range s {
